@@ -28,9 +28,10 @@ REGISTRY = dict(
           "guard on the remaining steps (0 < t_k, t_{k+1} < 3 t_k) the run ends within steps+(J+1)(n+2) sweeps; the "
           "unconditional termination claim is refuted (Zeno: n jumps in one step for every n); steps whose bracket "
           "touches 0 (the first step) are left to C19's unproved TerminatesAlways. Props/C18Term.lean removes the "
-          "t_{k+1} < 3 t_k restriction: on every step with 0 < t_k, t_{k+1} <= t_k 2^m, t_{k+1}-t_k < 2^n a search closes "
-          "within K+2 sweeps, K = n(2m+2) (C19Term), so with at most J jumps the run ends within steps+(J+1)(K+2) sweeps; "
-          "the liveness hypothesis is now: finitely many jumps, and the step in progress does not start at t = 0. "
+          "t_{k+1} < 3 t_k restriction and covers the first step: with a search budget K on the remaining steps (K = n(2m+2) "
+          "when 0 < t_k, t_{k+1} <= t_k 2^m, t_{k+1}-t_k < 2^n; K = n(2m+5) when 0 <= t_k, 2 t_{k+1} <= 2^m — every grid; both "
+          "from C19Term) a search closes within K+2 sweeps and a run with at most J jumps ends within steps+(J+1)(K+2) sweeps, "
+          "from init() on (run_terminates_of_jump_budget); the liveness hypothesis is now only: finitely many jumps. "
           "Counterexample proved and replayed "
           "on the real code: gap exactly 0 at a step boundary trips the BrentsRootFinder constructor assert (D10, "
           "KNOWN-FINDING), and that is the only way to trip it. Model tied to NoisyMPSBackendImpl by bit-exact event "
@@ -412,8 +413,8 @@ def check(rep: Report, tier: str, seed: int) -> None:
                 "(grid, tape) bit patterns")
     rep.assumptions = [
         "liveness hypothesis (named in the theorem): finitely many jumps; unconditional termination is refuted in Lean (zeno)",
-        "search length in steps whose bracket touches 0 (first step): C19 TerminatesAlways, not proved; validated here by "
-        "running the real class to convergence in every tape/physics run (steps with 0 < t_k: C18Term.search_closes_pos)",
+        "search length: bounded for every step incl. the first (C18Term.search_closes with C19Term.within_pos_bracket / "
+        "within_nonneg_bracket, exact arithmetic); also validated by running the real class to convergence in every tape/physics run",
         "environment contract: random.uniform draws in [0,1]; post-jump norm passes the code's own isclose assert",
         "binary64 rounding is outside the theorems (same definitions over an ordered field); the correspondence is bit-exact",
         "local kernels (_evolve etc.) abstracted to events: C18 is about the stepping logic only",
